@@ -285,17 +285,18 @@ func (c *C04Copy) Run() string {
 					return
 				}
 				for k, co := range coordsOf(c.A.Shape) {
-					if m.At(co[0], co[1]) != toF64(A.arr.E[k]) {
+					if !eqVal(m.At(co[0], co[1]), toF64(A.arr.E[k])) {
 						extra = fmt.Sprintf("matrix element %v is %v, expected %v", co, m.At(co[0], co[1]), toF64(A.arr.E[k]))
 						return
 					}
 				}
 				// a safe conversion is a copy
-				m.Set(0, 0, m.At(0, 0)+100)
+				orig00 := m.At(0, 0)
+				m.Set(0, 0, 100)
 				extra = A.unchanged("the source of ToMat64 (the matrix is a copy)")
 				// and back
 				back := tensor.FromMat64(m, tensor.As(d.T))
-				m.Set(0, 0, m.At(0, 0)-100)
+				m.Set(0, 0, orig00)
 				back2 := tensor.FromMat64(m, tensor.As(d.T))
 				_ = back
 				if extra == "" {
@@ -493,13 +494,17 @@ func TestC04(t *testing.T) {
 				switch op {
 				case "ToMat64":
 					minR, maxR = 2, 2
-					d = rapid.SampledFrom([]DT{dtF64, dtF32, dtInt16, dtUint32}).Draw(rt, "mdt")
+					d = rapid.SampledFrom([]DT{dtF64, dtF32, dtInt16, dtUint32, dtInt32, dtUint8, dtInt8, dtUint16}).Draw(rt, "mdt")
 				case "Native":
 					maxR = 3
 				}
 				shape := genShapeMin2(rt, minR, maxR, 3, "s")
 				c := &C04Copy{DT: d.Name, Op: op}
-				c.A = genOpnd(rt, shape, sk, 0, 40, 0, "a")
+				sp := 0
+				if op == "ToMat64" && d.Size() <= 4 && !d.IsFloat() {
+					sp = 20 // the extremes of the narrower integer types are exact in float64
+				}
+				c.A = genOpnd(rt, shape, sk, 0, 40, sp, "a")
 				if op == "SafeT" || op == "pkgT" || op == "pkgTranspose" {
 					c.Perm = genPerm(rt, len(shape), "perm")
 				}
